@@ -36,6 +36,13 @@ def single_slot(d):
     return isinstance(d, PartHandler) and not isinstance(d, (Buffer, PartBatcher, Source))
 
 
+def worth(item):
+    """Value of a part, or of a batch as the sum over the parts in it (not the batch's own accessor)."""
+    if isinstance(item, Batch):
+        return sum(worth(q) for q in item.parts)
+    return item.value
+
+
 class GiveWrap:
     """Instance-level wrapper of a device's give_part (an object, not a closure: it survives a deep copy)."""
 
@@ -157,7 +164,7 @@ class ProcRef:
         if mon.probing:
             return
         now = mon.env.now
-        mon.prod_cb.setdefault(m.name, []).append((now, p.id, p.quality, p.value))
+        mon.prod_cb.setdefault(m.name, []).append((now, p.id, p.quality, worth(p)))
         if p is not self.part:
             self.bad('C06.finished-wrong-part', f'{m.name} finished {p.name} at {now} but the part in process is '
                      f'{getattr(self.part, "name", None)}')
@@ -322,7 +329,7 @@ class Monitor:
         """Registered before every model callback: the part as it is at the moment of receipt."""
         if self.probing:
             return
-        self.recv_cb.setdefault(dev.name, []).append((self.env.now, part.id, part.quality, part.value))
+        self.recv_cb.setdefault(dev.name, []).append((self.env.now, part.id, part.quality, worth(part)))
         self.objs[part.id] = part
 
     def on_recv(self, dev, part):
@@ -520,7 +527,7 @@ class Monitor:
             self.dispatched.append((e0.time, e0.asset_id, nm, e0.message, float(e0.event_type), e0.cancelled))
         for s in self.src_last:
             o = self.m.D[s]._output
-            self.src_pre[s] = (o, o.value if o is not None else None)
+            self.src_pre[s] = (o, worth(o) if o is not None else None)
         now_before = env.now
         self._orig_step()
         PROGRESS[0] += 1
@@ -1137,7 +1144,7 @@ class Monitor:
         top = {}
         for d in self.devs:
             if isinstance(d, PartHandler) and not isinstance(d, Sink):
-                cands = [d._part, d._output] + [p for _, p in getattr(d, '_buffer', [])]
+                cands = [d._part, d._output] + (list(d.stored_parts) if isinstance(d, Buffer) else [])
                 for c_ in cands:
                     if isinstance(c_, Batch):
                         for lf in leaves(c_):
